@@ -19,7 +19,8 @@ Definition check_entry (honor_filemode : bool) (i : ientry) (w : option wentry) 
   | None => true                                             (* FileNotFoundError: removed *)
   | Some x =>
     if w_isdir x then false                                  (* a directory where a file is tracked: _has_directory_changed, not modelled here *)
-    else if w_sig x =? i_sig i then false                    (* _stat_matches_entry: taken as unchanged without reading *)
+    else if w_sig x =? i_sig i                               (* _stat_matches_entry: content taken as unchanged without reading; *)
+    then honor_filemode && negb (e_mode (w_entry x) =? e_mode (i_entry i))    (* the mode is in the stat result and compared *)
     else negb (e_id (w_entry x) =? e_id (i_entry i))
          || (honor_filemode && negb (e_mode (w_entry x) =? e_mode (i_entry i)))
   end.
